@@ -145,7 +145,17 @@ func (z *Decimal) scan(r io.ByteScanner, base int) (f *Decimal, b int, err error
 		}
 		z.Quo(z, p.pow2(n))
 	} else {
-		z.Mul(z, p.pow2(uint64(exp2)))
+		// mant * 2**n can only be representable in z.prec digits if the
+		// mantissa is a multiple of a large power of five, which bounds n by
+		// the size of the mantissa. In that range multiply by the exact
+		// power of two: a rounded factor would make a representable product
+		// inexact.
+		n := uint64(exp2)
+		if d := n*30103/100000 + 2; d > uint64(p.prec) && d <= MaxPrec &&
+			n <= uint64(len(z.mant))*_W+4*uint64(z.prec)+_W {
+			p.SetPrec(uint(d))
+		}
+		z.Mul(z, p.pow2(n))
 	}
 
 	return
